@@ -135,6 +135,15 @@ def check_tree(ctx, case):
             flags = tuple(flags) + ("--root", ".")
         else:
             GT.materialise(root, spec)
+            if spec.get("gitfile") and spec["git"]:
+                # the work tree's .git is a FILE that points at the repository (git worktree add, git init --separate-git-dir)
+                import shutil
+
+                gitdir = ctx.fresh_dir("gitdir")
+                os.rmdir(gitdir)
+                shutil.move(str(root / ".git"), str(gitdir))
+                (root / ".git").write_text(f"gitdir: {gitdir}\n")
+                ctx.label("git:.git-is-a-file")
         copy_flags = tuple(flags)  # the annotate observations run inside their own copy of the tree
         run_cwd = root
         if outside:
@@ -313,6 +322,10 @@ DIRECTED = [
      "git": None},
     {"nodes": {"src/util.py": ("text", b"x = 1\n"), "src/util_alias.py": ("hardlink", "src/util.py"), "one.txt": ("text", b"hello\n"), "two.txt": ("hardlink", "one.txt")},
      "git": {"ignore": {}, "tracked": ["src/util.py", "one.txt"], "forced": [], "submodules": [], "exclude": []}},
+    # a work tree whose .git is a file: ignore rules and force-added files as usual
+    {"nodes": {"src/x.py": ("text", b"x = 1\n"), "build/out.py": ("text", b"x = 1\n"), "debug.log": ("text", b"hello\n"), "src/trace.log": ("text", b"hello\n"), "keep.log": ("text", b"hello\n"),
+               "README.md": ("text", b"hello\n")},
+     "git": {"ignore": {"": ["build/", "*.log"]}, "tracked": ["src/x.py", "README.md"], "forced": ["keep.log"], "submodules": [], "exclude": []}, "gitfile": True},
     # annotate -r a b src (the first three directories): siblings whose names merely begin with 'src' are not below src/
     {"nodes": {"a/x.py": ("text", b"x = 1\n"), "b/y.py": ("text", b"x = 1\n"), "src/m.py": ("text", b"x = 1\n"), "src/deep/n.py": ("text", b"x = 1\n"),
                "src-old/m.py": ("text", b"x = 1\n"), "src2/k.py": ("text", b"x = 1\n"), "srcfile.py": ("text", b"x = 1\n"), "src.txt": ("text", b"hello\n")},
